@@ -59,8 +59,11 @@ def get_unit_and_comment_from_assignment(
             try:
                 # Try to parse the unit
                 unit = units.ureg(potential_unit.text)
-            except (units.pint.UndefinedUnitError, AttributeError):
-                # Not a proper unit so it's a comment
+            except Exception:
+                # Not a proper unit so it's a comment. The unit parser evaluates
+                # the text, so free-form comments such as "1/0", "(" or a quoted
+                # word raise all kinds of errors (ZeroDivisionError, TokenError,
+                # DefinitionSyntaxError, ...), not only UndefinedUnitError
                 return None, atoms.Comment(potential_unit.text)
             else:
                 if isinstance(unit, units.pint.Quantity):
